@@ -107,6 +107,9 @@ T = {
     "C18-b": ("C18", "C18.R7|grant-loop-runs-to-fixpoint", "after",
               "strictly fair semaphore, queued oversized head cancelled while two smaller waiters behind it both fit: only the first is granted, the second is stranded",
               "cargo test --offline -p shuttle --test seed_demo"),
+    "C19-b": ("C19", "C19.R5", "before",
+              "rx.close() then drop(rx) while a message is still buffered and a Sender is still alive: the buffered value (e.g. a request carrying a oneshot::Sender) is never dropped; its client deadlocks",
+              "cargo test --offline -p shuttle-tokio-impl-inner --test seed_demo  (seed_demo.rs copied to wrappers/tokio/impls/tokio/inner/tests/)"),
     "C20-b": ("C20", "C20.R1", "before",
               "try_upgradable_read failing because a writer holds (or is queued for) the lock while the upgradable slot is free: the slot stays taken, no upgradable reader is ever admitted again",
               "cargo test --offline -p shuttle-parking_lot-impl --test seed_demo"),
